@@ -57,7 +57,7 @@ var bfVocab = map[string]bool{
 	"Get": true, "GetAll": true, "Has": true, "Split": true, "TrimSpace": true, "Join": true,
 	"BindTo": true, "bindJSON": true, "bindForm": true, "hasJSONOrFormTag": true,
 	"MultipartTo": true, "FormTo": true, "ParseMultipartForm": true, "ParseForm": true,
-	"Lock": true, "Unlock": true, "Load": true, "Store": true, "parseStructInfo": true, "Copy": true,
+	"ToLower": true, "Lock": true, "Unlock": true, "Load": true, "Store": true, "parseStructInfo": true, "Copy": true,
 }
 
 var bfCfgFields = map[string]bool{"skipDefaults": true, "sources": true}
@@ -391,6 +391,26 @@ func bfKindNames(cc *ast.CaseClause) []string {
 	return ks
 }
 
+func bfIsIdentByte(c byte) bool {
+	return c == '_' || c >= '0' && c <= '9' || c >= 'a' && c <= 'z' || c >= 'A' && c <= 'Z'
+}
+
+// bfReplaceIdent replaces the identifier name by `by` in the source text s (whole words only)
+func bfReplaceIdent(s, name, by string) string {
+	var b strings.Builder
+	for i := 0; i < len(s); {
+		if strings.HasPrefix(s[i:], name) && (i == 0 || !bfIsIdentByte(s[i-1]) && s[i-1] != '.') &&
+			(i+len(name) == len(s) || !bfIsIdentByte(s[i+len(name)])) {
+			b.WriteString(by)
+			i += len(name)
+			continue
+		}
+		b.WriteByte(s[i])
+		i++
+	}
+	return b.String()
+}
+
 func genBindFacts(repo string) string {
 	g := &bfGen{}
 	var binding, app *pkg
@@ -656,6 +676,206 @@ func genBindFacts(repo string) string {
 		}
 		appItems = bfItems(fn.Body.List)
 	})
+	// ---- literal tables: parseBoolGenerous (arms of its switch and what they return), the string literals of the
+	// tag parser and of the map-key readers
+	type boolArm struct {
+		lits []string
+		ret  string
+	}
+	var boolArms []boolArm
+	boolDefaultErr := false
+	var boolPrep []string
+	g.guard("parseBoolGenerous", func() {
+		fn := bfFn(binding, "", "parseBoolGenerous")
+		var sw *ast.SwitchStmt
+		for _, st := range fn.Body.List {
+			if x, ok := st.(*ast.SwitchStmt); ok {
+				if sw != nil {
+					bfFail(x, "two switches")
+				}
+				sw = x
+			} else {
+				boolPrep = append(boolPrep, bfCalls(st)...)
+			}
+		}
+		if sw == nil {
+			bfFail(fn, "no switch")
+		}
+		for _, c := range sw.Body.List {
+			cc := c.(*ast.CaseClause)
+			if len(cc.Body) != 1 {
+				bfFail(cc, "an arm that is not a single return")
+			}
+			ret, ok := cc.Body[0].(*ast.ReturnStmt)
+			if !ok || len(ret.Results) != 2 {
+				bfFail(cc, "an arm that is not a single return of two values")
+			}
+			if cc.List == nil {
+				boolDefaultErr = src(ret.Results[1]) != "nil"
+				continue
+			}
+			if src(ret.Results[1]) != "nil" {
+				bfFail(ret, "a literal arm that returns an error")
+			}
+			var lits []string
+			for _, e := range cc.List {
+				lit, ok := e.(*ast.BasicLit)
+				if !ok || lit.Kind != token.STRING {
+					bfFail(e, "case is not a string literal")
+				}
+				v, _ := strconv.Unquote(lit.Value)
+				lits = append(lits, v)
+			}
+			boolArms = append(boolArms, boolArm{lits, src(ret.Results[0])})
+		}
+	})
+	g.b.WriteString("/-- `parseBoolGenerous`: the arms of its switch (literals, the value returned) -/\ndef parseBool_arms : List (List String × String) := [")
+	for i, a := range boolArms {
+		if i > 0 {
+			g.b.WriteString(", ")
+		}
+		fmt.Fprintf(&g.b, "(%s, %s)", bfStrs(a.lits), leanStr(a.ret))
+	}
+	g.b.WriteString("]\n\n")
+	fmt.Fprintf(&g.b, "/-- … its default arm returns an error -/\ndef parseBool_defaultIsError : Bool := %v\n\n", boolDefaultErr)
+	fmt.Fprintf(&g.b, "/-- … what it does to the string before the switch -/\ndef parseBool_prep : List String := %s\n\n", bfStrs(boolPrep))
+	strLits := func(name, recv, fn string) {
+		var lits []string
+		g.guard(fn, func() {
+			d := bfFn(binding, recv, fn)
+			ast.Inspect(d.Body, func(x ast.Node) bool {
+				if lit, ok := x.(*ast.BasicLit); ok && lit.Kind == token.STRING {
+					v, err := strconv.Unquote(lit.Value)
+					if err != nil {
+						bfFail(lit, "%v", err)
+					}
+					lits = append(lits, v)
+				}
+				return true
+			})
+		})
+		fmt.Fprintf(&g.b, "/-- `%s`: its string literals in source order -/\ndef %s : List String := %s\n\n", fn, name, bfStrs(lits))
+	}
+	strLits("parseTag_literals", "", "parseTagWithAliases")
+	strLits("extractBracketKey_literals", "", "extractBracketKey")
+	strLits("prefixGetter_Has_literals", "prefixGetter", "Has")
+
+	// ---- options: what every With… option assigns ($i = its i-th parameter); what clone() copies deeply
+	var optWrites [][2]string
+	var cloneDeep []string
+	cloneStarts := false
+	g.guard("options", func() {
+		for _, f := range binding.files {
+			for _, d := range f.Decls {
+				fd, ok := d.(*ast.FuncDecl)
+				if !ok || fd.Recv != nil || fd.Body == nil || !strings.HasPrefix(fd.Name.Name, "With") {
+					continue
+				}
+				if fd.Type.Results == nil || len(fd.Type.Results.List) != 1 || src(fd.Type.Results.List[0].Type) != "Option" {
+					continue
+				}
+				params := map[string]int{}
+				k := 0
+				for _, pf := range fd.Type.Params.List {
+					for _, n := range pf.Names {
+						params[n.Name] = k
+						k++
+					}
+				}
+				var lit *ast.FuncLit
+				ast.Inspect(fd.Body, func(x ast.Node) bool {
+					if fl, ok := x.(*ast.FuncLit); ok && lit == nil && len(fl.Type.Params.List) == 1 && src(fl.Type.Params.List[0].Type) == "*config" {
+						lit = fl
+						return false
+					}
+					return true
+				})
+				if lit == nil {
+					// an option defined through another one: return WithX(…)
+					if len(fd.Body.List) == 1 {
+						if ret, ok := fd.Body.List[0].(*ast.ReturnStmt); ok && len(ret.Results) == 1 {
+							if c, ok := ret.Results[0].(*ast.CallExpr); ok && strings.HasPrefix(bfCalleeName(c), "With") {
+								optWrites = append(optWrites, [2]string{fd.Name.Name, "->" + src(c)})
+								continue
+							}
+						}
+					}
+					bfFail(fd, "%s: no func(c *config) literal", fd.Name.Name)
+				}
+				recv := lit.Type.Params.List[0].Names[0].Name
+				ast.Inspect(lit.Body, func(x ast.Node) bool {
+					as, ok := x.(*ast.AssignStmt)
+					if !ok {
+						return true
+					}
+					for i, l := range as.Lhs {
+						var sel *ast.SelectorExpr
+						switch l := l.(type) {
+						case *ast.SelectorExpr:
+							sel = l
+						case *ast.IndexExpr: // c.typeConverters[t] = …
+							if s2, ok := l.X.(*ast.SelectorExpr); ok {
+								sel = s2
+							}
+						}
+						if sel == nil {
+							continue
+						}
+						if id, ok := sel.X.(*ast.Ident); !ok || id.Name != recv {
+							continue
+						}
+						rhs := "?"
+						if i < len(as.Rhs) {
+							rhs = src(as.Rhs[i])
+							for name, idx := range params {
+								rhs = bfReplaceIdent(rhs, name, "$"+strconv.Itoa(idx))
+							}
+							rhs = bfReplaceIdent(rhs, recv, "c")
+						}
+						optWrites = append(optWrites, [2]string{fd.Name.Name, sel.Sel.Name + "=" + rhs})
+					}
+					return true
+				})
+			}
+		}
+		cl := bfFn(binding, "config", "clone")
+		if len(cl.Body.List) > 0 {
+			if as, ok := cl.Body.List[0].(*ast.AssignStmt); ok && len(as.Rhs) == 1 {
+				if st, ok := as.Rhs[0].(*ast.StarExpr); ok {
+					if id, ok := st.X.(*ast.Ident); ok && id.Name == recvName(cl) {
+						cloneStarts = true
+					}
+				}
+			}
+		}
+		ast.Inspect(cl.Body, func(x ast.Node) bool {
+			if as, ok := x.(*ast.AssignStmt); ok {
+				for _, l := range as.Lhs {
+					if sel, ok := l.(*ast.SelectorExpr); ok {
+						dup := false
+						for _, c := range cloneDeep {
+							dup = dup || c == sel.Sel.Name
+						}
+						if !dup {
+							cloneDeep = append(cloneDeep, sel.Sel.Name)
+						}
+					}
+				}
+			}
+			return true
+		})
+	})
+	g.b.WriteString("/-- every `With…` option of package binding: what its closure assigns ($i = the option's i-th parameter) -/\ndef optionWrites : List (String × String) := [")
+	for i, w := range optWrites {
+		if i > 0 {
+			g.b.WriteString(",")
+		}
+		fmt.Fprintf(&g.b, "\n  (%s, %s)", leanStr(w[0]), leanStr(w[1]))
+	}
+	g.b.WriteString("]\n\n")
+	fmt.Fprintf(&g.b, "/-- `(*config).clone` starts from a copy of the whole struct -/\ndef clone_copiesStruct : Bool := %v\n\n", cloneStarts)
+	fmt.Fprintf(&g.b, "/-- … and re-assigns these fields (deep copies) -/\ndef clone_deepFields : List String := %s\n\n", bfStrs(cloneDeep))
+
 	// ---- the struct-info cache: the key, the lock discipline around the fill
 	var keyFields [][2]string
 	var keyFrom, parseArgs []string
